@@ -19,7 +19,8 @@ static void lu_case(const Pattern &p, bool allow_explicit_zeros, size_t max_path
             amgcl::solver::skyline_lu<scalar> S(std::tie(n,A.ptr,A.col,A.val));
             size_t ung = 0;
 #ifdef HX_SYM
-            if (!hx::concrete()) { std::string w; ung=symx::unguarded_divisions(&w); hx::require("zero pivot is reported by an exception: every division in the factorisation is guarded", ung==0, w); }
+            // solver model of a zero divisor is attached to the violation: the replay at that point divides by zero in the real code
+            hx::no_breakdown("zero pivot is reported by an exception: every division in the factorisation is guarded", hx::tt());
 #endif
             S(f,x);
         } catch (const std::runtime_error &e) { threw=true; hx::count("zero-pivot exception paths"); }
